@@ -17,6 +17,19 @@ Theorem C14_label_is_mode : forall K labels a, (forall k, k < K -> In k labels) 
 Proof. exact label_is_mode. Qed.
 Print Assumptions C14_label_is_mode.
 
+(** iterations that reuse the clustering: whatever the old model predicts for the new training points (in particular when
+    one of its clusters attracts none), the labels handed to the kernels index the modes fitted from their own cluster,
+    provided a freshly fitted model covers its own training set *)
+Theorem C14_reuse_label_is_mode : forall K_old pred_old K_new pred_new a,
+  covers K_new pred_new = true ->
+  let r := reuse_labels true K_old pred_old K_new pred_new in
+  a < fst r -> kernel_mode (fst r) (snd r) a = Some a.
+Proof. exact reuse_label_is_mode. Qed.
+Print Assumptions C14_reuse_label_is_mode.
+(** non-vacuity: a reused two-cluster model whose cluster 0 attracts nothing is replaced *)
+Example C14_reuse_example : reuse_labels true 2 [1; 1; 1] 1 [0; 0; 0] = (1, [0; 0; 0]) /\ covers 1 [0; 0; 0] = true.
+Proof. split; reflexivity. Qed.
+
 Theorem C14_modes_count : forall K labels, length (occurring K labels) <= K.
 Proof. exact modes_count. Qed.
 Print Assumptions C14_modes_count.
@@ -24,6 +37,10 @@ Print Assumptions C14_modes_count.
 (** the pinned tree's cadence (no "never fitted" clause) is refuted: cluster_every = 3, two warm-up
     iterations, first annealing iteration numbered 2 *)
 Example C14_unfitted_refuted : trainer_run false 3 0 [false; true] false = PredictOnUnfitted.
+Proof. reflexivity. Qed.
+(** without the coverage test on reuse (the tree before the repair) label 1 has no mode *)
+Example C14_reuse_unchecked_refuted :
+  let r := reuse_labels false 2 [1; 1; 1] 1 [0; 0; 0] in kernel_mode (fst r) (snd r) 1 = None.
 Proof. reflexivity. Qed.
 (** without coverage the rank-indexed modes and the raw labels disagree *)
 Example C14_rank_mismatch_refuted :
